@@ -176,6 +176,35 @@ func classesScenario(k scenKey) *Scenario {
 	return sc
 }
 
+// genesis: block 0 through the node's own StoreGenesis (Finalise of a header-less block built
+// around a state diff), a few blocks on top, everything reverted down to the EMPTY chain (RevertHead
+// of the genesis block deletes the chain height), the same genesis stored again.
+func genesisScenario(k scenKey) *Scenario {
+	r := lib.NewRNG(k.Seed)
+	opt := lib.DefaultGenOptions()
+	opt.Versions = []string{"0.13.2", "0.14.0"}
+	g := lib.NewChainGen(r, k.SrcNew, opt)
+	sc := newScenario(k, g)
+	b := &builder{g: g, r: r, sc: sc}
+	sc.BaseWorld = b.world()
+	diff, classes := g.GenDiff(lib.NewAbsState(), 0, "0.13.2")
+	b.genesis(diff, classes)
+	b.store(eventfulSpec(g, r, "0.13.2"))
+	if k.Seed%2 == 0 {
+		b.simple("restart")
+	}
+	b.store(eventfulSpec(g, r, "0.13.2"))
+	b.revert()
+	b.revert()
+	b.revert()
+	if k.Seed%3 == 0 {
+		b.simple("kill")
+	}
+	b.genesis(diff, classes)
+	b.store(eventfulSpec(g, r, "0.13.2"))
+	return sc
+}
+
 var exhaustiveOps = []string{"store", "finalise", "revert", "rejected", "snap", "restart", "kill", "l1head"}
 
 // exhaustive: after a fixed prefix (two blocks, graceful restart, one block) EVERY pair of calls
@@ -608,6 +637,8 @@ func buildScenario(k scenKey, f lib.Flags) *Scenario {
 		sc = exhaustiveScenario(k)
 	case "classes":
 		sc = classesScenario(k)
+	case "genesis":
+		sc = genesisScenario(k)
 	case "prune":
 		sc = pruneScenario(k)
 	case "prune-deep":
@@ -791,6 +822,10 @@ func main() {
 		// class declarations / migrations / L1-handler messages stored, reverted and stored again
 		for i := 0; i < f.Scale(2, 6); i++ {
 			keys = append(keys, scenKey{"classes", f.Seed*1000 + uint64(i), i%2 == 1, (uint64(i)+f.Seed)%2 == 1, "memory"})
+		}
+		// StoreGenesis, RevertHead down to the empty chain
+		for i := 0; i < f.Scale(1, 4); i++ {
+			keys = append(keys, scenKey{"genesis", f.Seed*1000 + uint64(i), (uint64(i)+f.Seed)%2 == 0, (uint64(i)+f.Seed/2)%2 == 1, "memory"})
 		}
 		// Pebble v2 in the quick tier too (its batch / range-delete code is its own)
 		keys = append(keys, scenKey{"short", f.Seed*1000 + 900, f.Seed%2 == 0, f.Seed%2 == 1, "pebble"})
